@@ -63,6 +63,16 @@ def _rec_aou(self, projection):
 
 
 DynamicAreaDefinition._get_crs_area_of_use = _rec_aou
+_orig_uniform = SwathDefinition._compute_uniform_shape
+
+
+def _rec_uniform(self, resolution=None):
+    hw = _orig_uniform(self, resolution)
+    captured["opt_shape"] = [int(hw[0]), int(hw[1])]
+    return hw
+
+
+SwathDefinition._compute_uniform_shape = _rec_uniform
 
 
 def mk_input(case):
@@ -103,6 +113,56 @@ def res_arg(r):
     return r
 
 
+def make_dyn(case):
+    proj = case["crs"]
+    ctor = case.get("ctor", {})
+    proj = dict(proj) if isinstance(proj, dict) else proj
+    if case.get("via") == "create_area_def":
+        from pyresample import create_area_def
+        kw = {}
+        if ctor.get("resolution") is not None:
+            kw["resolution"] = res_arg(ctor.get("resolution"))
+        if ctor.get("width") is not None:
+            kw["shape"] = (ctor["height"], ctor["width"])
+        d = create_area_def("c14", proj, **kw)
+        assert isinstance(d, DynamicAreaDefinition), type(d)
+        return d
+    return DynamicAreaDefinition("c14", "c14", proj, width=ctor.get("width"), height=ctor.get("height"),
+                                 area_extent=unhex(ctor.get("area_extent")), resolution=res_arg(ctor.get("resolution")),
+                                 optimize_projection=bool(case.get("optimize")))
+
+
+def summary(area):
+    return {"extent": [hx(v) for v in area.area_extent], "w": int(area.width), "h": int(area.height), "crs": area.crs.to_proj4()}
+
+
+def do_freeze(d, case):
+    fz = case.get("freeze", {})
+    shape = fz.get("shape")
+    return d.freeze(mk_input(case), resolution=res_arg(fz.get("resolution")), shape=tuple(shape) if shape is not None else None,
+                    proj_info=dict(fz["proj_info"]) if fz.get("proj_info") else None, antimeridian_mode=fz.get("antimeridian_mode"))
+
+
+def run_history(h):
+    """several freezes on ONE object; each is also run on a fresh object built from the same constructor arguments"""
+    out_calls = []
+    try:
+        d = make_dyn(h)
+    except Exception as e:
+        return {"error": type(e).__name__, "msg": str(e)[:200]}
+    for call in h["calls"]:
+        c = dict(h)
+        c.update(call)
+        o = {}
+        for who, obj in (("same", d), ("fresh", None)):
+            try:
+                o[who] = summary(do_freeze(obj if obj is not None else make_dyn(h), c))
+            except Exception as e:
+                o[who] = {"error": type(e).__name__, "msg": str(e)[:200]}
+        out_calls.append(o)
+    return {"calls": out_calls}
+
+
 def run_freeze(case):
     o = {}
     captured.clear()
@@ -110,9 +170,7 @@ def run_freeze(case):
     ctor = case.get("ctor", {})
     fz = case.get("freeze", {})
     try:
-        d = DynamicAreaDefinition("c14", "c14", dict(proj) if isinstance(proj, dict) else proj,
-                                  width=ctor.get("width"), height=ctor.get("height"),
-                                  area_extent=unhex(ctor.get("area_extent")), resolution=res_arg(ctor.get("resolution")))
+        d = make_dyn(case)
         pd = d._get_proj_dict()
         if fz.get("proj_info"):
             pd = dict(pd)
@@ -133,6 +191,8 @@ def run_freeze(case):
         o["pts"] = [[hx(a), hx(b)] for a, b in zip(*captured["pts"])]
     if "aou" in captured:
         o["aou"] = [hx(captured["aou"][0]), hx(captured["aou"][1])]
+    if "opt_shape" in captured:
+        o["opt_shape"] = captured["opt_shape"]
     if area is None:
         return o
     ext = [float(v) for v in area.area_extent]
@@ -174,6 +234,7 @@ def run_freeze(case):
 
 
 out["freeze"] = [run_freeze(c) for c in req.get("freeze", [])]
+out["history"] = [run_history(h) for h in req.get("history", [])]
 
 res = []
 for c in req.get("compute_domain", []):
